@@ -2,6 +2,7 @@ package main
 
 import (
 	"bytes"
+	"encoding/binary"
 	"encoding/hex"
 	"errors"
 	"fmt"
@@ -37,19 +38,15 @@ func init() { streams["slabid"] = slabidStream }
 //	MNEW / MOP <op> ... / OBS ...                 InMemBaseStorage
 //	LNEW keep= fail= junk= / LOP <op> ... / OBS ... / LREGS ...   LedgerBaseStorage over mapLedger
 //	PNEW / POP gen a= / OBS id=                   PersistentSlabStorage.GenerateSlabID over it
-func slabidStream(cfg *Config) *hx.Stats {
+func slabidStream(cfg *Config) (res *hx.Stats) {
 	st := hx.NewStats("slabid", cfg.Seed)
 	w := hx.NewW(filepath.Join(cfg.Out, fmt.Sprintf("slabid-%d.trace", cfg.Seed)))
 	defer w.Close()
 	st.TraceFiles = append(st.TraceFiles, w.Path)
 	rng := rand.New(rand.NewSource(cfg.Seed*7919 + 11))
 	e := &sidEnv{w: w, st: st, cfg: cfg, rng: rng}
-	defer func() {
-		if r := recover(); r != nil {
-			st.HarnessErr = fmt.Sprintf("slabid stream panicked: %v", r)
-		}
-		st.TraceLines = w.Lines
-	}()
+	defer func() { st.TraceLines = w.Lines }()
+	defer recoverAsViolation(st, w, &res)
 
 	// --- Part A: identifier functions on boundary x boundary and random identifiers
 	addrs := boundaryWords(rng, 6)
@@ -174,6 +171,9 @@ type sidEnv struct {
 }
 
 func (e *sidEnv) violation(prop, what string) {
+	if len(e.st.Violations) > 60 {
+		return
+	}
 	e.st.Violations = append(e.st.Violations, hx.Violation{
 		Property: prop, Stream: "slabid", Seed: e.cfg.Seed, Program: e.prog, What: what, Trace: e.w.Path,
 	})
@@ -326,6 +326,19 @@ func (e *sidEnv) idLine(id atree.SlabID) {
 	if vid != "-" && vid != hex.EncodeToString(raw) {
 		e.violation("C10", fmt.Sprintf("value identifier %s of a container whose root slab is %x", vid, raw))
 	}
+	// model-free: the successor of an index is the big-endian index + 1 (computed with
+	// encoding/binary), an identifier has the temporary address iff its address is all zero
+	var wantNext atree.SlabIndex
+	idx := id.Index()
+	binary.BigEndian.PutUint64(wantNext[:], binary.BigEndian.Uint64(idx[:])+1)
+	if next != wantNext {
+		e.violation("C09", fmt.Sprintf("SlabIndex(%x).Next() = %x, the big-endian successor is %x", id.Index(), next, wantNext))
+	}
+	if id.HasTempAddress() != (id.Address() == atree.Address{}) {
+		for _, p := range []string{"C03", "C15"} {
+			e.violation(p, fmt.Sprintf("HasTempAddress() = %v on the identifier %s", id.HasTempAddress(), rawHex(id)))
+		}
+	}
 	if int(atree.SlabIDStorable(id).ByteSize()) != len(enc) {
 		e.violation("C06", fmt.Sprintf("SlabIDStorable(%s): ByteSize %d, encoded %d bytes", id, atree.SlabIDStorable(id).ByteSize(), len(enc)))
 	}
@@ -375,6 +388,19 @@ func (e *sidEnv) fromRaw(b []byte) {
 	}
 	e.w.L("FROMRAW b=%s res=%s", hx0(b), res)
 	e.st.Ops++
+	// model-free: fewer than 16 bytes are refused; 16 or more give the identifier made of the first 16
+	if (len(b) < 16) != (err != nil) {
+		e.violation("C15", fmt.Sprintf("NewSlabIDFromRawBytes on %d bytes: %s", len(b), res))
+	}
+	if err == nil && len(b) >= 16 {
+		var a atree.Address
+		var i atree.SlabIndex
+		copy(a[:], b[:8])
+		copy(i[:], b[8:16])
+		if id != atree.NewSlabID(a, i) {
+			e.violation("C15", fmt.Sprintf("NewSlabIDFromRawBytes(%x) = %s", b, rawHex(id)))
+		}
+	}
 }
 
 // dec feeds DecodeSlabIDStorable a stream decoder positioned at a byte string with the given
@@ -521,6 +547,17 @@ func (e *sidEnv) basicProgram(addrs [][8]byte, ids []atree.SlabID) {
 	gen := map[atree.SlabID]bool{}
 	var it atree.SlabIterator
 	itCount := 0
+	// model-free oracle: a Go map kept by the harness (a slab filed as nil is a key with a nil value)
+	shadow := map[atree.SlabID]atree.Slab{}
+	var itWant []string
+	entries := func() []string {
+		var p []string
+		for id, sl := range shadow {
+			p = append(p, rawHex(id)+":"+verStr(sl))
+		}
+		sort.Strings(p)
+		return p
+	}
 	withUndef := e.prog%3 == 0 // one program in three may file a slab under SlabIDUndefined
 	steps := 40 + e.rng.Intn(60)
 	for k := 0; k < steps; k++ {
@@ -552,6 +589,7 @@ func (e *sidEnv) basicProgram(addrs [][8]byte, ids []atree.SlabID) {
 			if err := s.Store(id, slab); err != nil {
 				panic(err)
 			}
+			shadow[id] = slab
 			e.w.L("BOP store id=%s v=%s", rawHex(id), vs)
 			e.w.L("OBS ok")
 			e.st.Hit("basic.store")
@@ -563,6 +601,7 @@ func (e *sidEnv) basicProgram(addrs [][8]byte, ids []atree.SlabID) {
 			if err := s.Remove(id); err != nil {
 				panic(err)
 			}
+			delete(shadow, id)
 			e.w.L("BOP remove id=%s", rawHex(id))
 			e.w.L("OBS ok")
 		case c < 75:
@@ -573,13 +612,23 @@ func (e *sidEnv) basicProgram(addrs [][8]byte, ids []atree.SlabID) {
 			}
 			e.w.L("BOP retrieve id=%s", rawHex(id))
 			e.w.L("OBS slab=%s found=%d", verStr(slab), b2i(ok))
+			if want, in := shadow[id]; slab != want || ok != in {
+				e.violation("C15", fmt.Sprintf("BasicSlabStorage.Retrieve(%s) = (%s, %v), the map holds (%s, %v)", rawHex(id), verStr(slab), ok, verStr(want), in))
+			}
 		case c < 82:
 			id := e.pickID(&pool, ids)
 			e.w.L("BOP loaded id=%s", rawHex(id))
-			e.w.L("OBS slab=%s", verStr(s.RetrieveIfLoaded(id)))
+			got := s.RetrieveIfLoaded(id)
+			e.w.L("OBS slab=%s", verStr(got))
+			if got != shadow[id] {
+				e.violation("C15", fmt.Sprintf("BasicSlabStorage.RetrieveIfLoaded(%s) = %s, the map holds %s", rawHex(id), verStr(got), verStr(shadow[id])))
+			}
 		case c < 87:
 			e.w.L("BOP count")
 			e.w.L("OBS n=%d", s.Count())
+			if s.Count() != len(shadow) {
+				e.violation("C15", fmt.Sprintf("BasicSlabStorage.Count() = %d, the map holds %d entries", s.Count(), len(shadow)))
+			}
 		case c < 91:
 			l := s.SlabIDs()
 			var p []string
@@ -589,6 +638,14 @@ func (e *sidEnv) basicProgram(addrs [][8]byte, ids []atree.SlabID) {
 			sort.Strings(p)
 			e.w.L("BOP ids")
 			e.w.L("OBS ids=%s", joinOrDash(p))
+			var want []string
+			for id := range shadow {
+				want = append(want, rawHex(id))
+			}
+			sort.Strings(want)
+			if joinOrDash(p) != joinOrDash(want) {
+				e.violation("C15", fmt.Sprintf("BasicSlabStorage.SlabIDs() = %s, the map's keys are %s", joinOrDash(p), joinOrDash(want)))
+			}
 		case c < 95:
 			var err error
 			it, err = s.SlabIterator()
@@ -596,6 +653,10 @@ func (e *sidEnv) basicProgram(addrs [][8]byte, ids []atree.SlabID) {
 				panic(err)
 			}
 			itCount = s.Count()
+			itWant = entries()
+			if _, in := shadow[atree.SlabIDUndefined]; in {
+				itWant = nil // an entry filed under the undefined identifier looks like the end-of-iteration sentinel: no prediction
+			}
 			e.w.L("BOP iternew")
 			e.w.L("OBS ok")
 		default:
@@ -611,6 +672,17 @@ func (e *sidEnv) basicProgram(addrs [][8]byte, ids []atree.SlabID) {
 					drained = j
 				}
 				p = append(p, rawHex(id)+":"+verStr(slab))
+			}
+			// model-free: the entries present when the iterator was made, each once, then the sentinel for good
+			var yielded []string
+			for _, x := range p {
+				if !strings.HasPrefix(x, rawHex(atree.SlabIDUndefined)+":") {
+					yielded = append(yielded, x)
+				}
+			}
+			sort.Strings(yielded)
+			if (itWant != nil || itCount == 0) && joinOrDash(yielded) != joinOrDash(itWant) {
+				e.violation("C15", fmt.Sprintf("BasicSlabStorage.SlabIterator yielded %s, the map held %s when it was made", joinOrDash(yielded), joinOrDash(itWant)))
 			}
 			sort.Strings(p)
 			e.w.L("BOP iternext n=%d", itCount+2)
@@ -834,6 +906,25 @@ func (e *sidEnv) ledgerPrograms(addrs [][8]byte, ids []atree.SlabID) {
 			}
 		}
 	}
+	if e.prog%2 == 1 {
+		// directed (no draw): the ledger call of the first request of one kind fails, the kind rotating
+		// with the program number, so that every run sees each of the four ledger calls fail
+		kind := []string{"gen", "store", "remove", "retrieve"}[(e.prog/2)%4]
+		call := 0
+		for _, op := range ops {
+			if op.kind == kind {
+				if !fail[call] {
+					fail[call] = true
+					failList = append(failList, fmt.Sprintf("%d", call))
+				}
+				e.st.Hit("ledger.directed-fault:" + kind)
+				break
+			}
+			if op.kind != "reset" {
+				call++
+			}
+		}
+	}
 	junk := []byte{}
 	if e.rng.Intn(2) == 0 {
 		junk = []byte{0xde, 0xad, 0xbe}
@@ -849,6 +940,8 @@ func (e *sidEnv) ledgerPrograms(addrs [][8]byte, ids []atree.SlabID) {
 		}
 		errStr := func(err error) string {
 			if hx.ErrCategory(err) != "External" || !errors.Is(err, errLedger) {
+				// model-free: a failure of the caller's ledger comes back as an external error that wraps it
+				e.violation("C15", fmt.Sprintf("LedgerBaseStorage reported the ledger's failure as %s (%v)", hx.ErrKind(err), err))
 				return "err:notExternal:" + err.Error()
 			}
 			return "err"
@@ -867,6 +960,12 @@ func (e *sidEnv) ledgerPrograms(addrs [][8]byte, ids []atree.SlabID) {
 				} else {
 					o = "id=" + rawHex(id)
 					e.freshOracle("LedgerBaseStorage", genSeen, op.addr, id)
+					// model-free: the identifier is made of the requested address and the index the ledger allocated
+					var want atree.SlabIndex
+					binary.BigEndian.PutUint64(want[:], l.ctr[string(op.addr[:])])
+					if id != atree.NewSlabID(op.addr, want) {
+						e.violation("C09", fmt.Sprintf("LedgerBaseStorage.GenerateSlabID(%x) returned %s, the ledger allocated index %x", op.addr, rawHex(id), want))
+					}
 				}
 			case "store":
 				e.w.L("LOP store id=%s d=%s", rawHex(op.id), hx0(op.data))
